@@ -94,4 +94,31 @@ theorem fieldSem_of_facts (a1 a2 : A) (h1 : Settled a1) (h2 : Settled a2) (hf : 
     apply opt_ext; intro p; rw [cborLen_char, cborLen_char]; simp only [hf]
   simp only [fieldSem, hskip, hidx, htag, henc, hdec, hisn, hnil, hcl]
 
+theorem encoding_char (a : A) (e : Enc) : a.encoding = some e ↔ Fact.encoding e ∈ a.facts := by
+  split_a; split_codec <;> cases nil <;> cases isNil <;> cases hasNil <;> cases cborLen <;>
+    simp [A.encoding, A.facts, Cl.facts, Rs.facts, CC.facts] <;> (cases encoding <;> simp <;> grind)
+
+theorem indexOnly_char (a : A) : a.indexOnly = true ↔ Fact.indexOnly ∈ a.facts := by
+  split_a; split_codec <;> cases nil <;> cases isNil <;> cases hasNil <;> cases cborLen <;>
+    simp [A.indexOnly, A.facts, Cl.facts, Rs.facts, CC.facts]
+
+theorem transparent_char (a : A) : a.transparent = true ↔ Fact.transparent ∈ a.facts := by
+  split_a; split_codec <;> cases nil <;> cases isNil <;> cases hasNil <;> cases cborLen <;>
+    simp [A.transparent, A.facts, Cl.facts, Rs.facts, CC.facts]
+
+/-- what the generators read off the attributes of a struct, an enum or a variant. -/
+def topSem (a : A) : Option Enc × Option Nat × Bool × Bool × Option (Bool × Nat) :=
+  (a.encoding, a.tag, a.transparent, a.indexOnly, a.index)
+
+theorem bool_ext (x y : Bool) (h : x = true ↔ y = true) : x = y := by
+  cases x <;> cases y <;> simp_all
+
+theorem topSem_of_facts (a1 a2 : A) (hf : ∀ f, f ∈ a1.facts ↔ f ∈ a2.facts) : topSem a1 = topSem a2 := by
+  have h1 : a1.encoding = a2.encoding := by apply opt_ext; intro e; rw [encoding_char, encoding_char, hf]
+  have h2 : a1.tag = a2.tag := by apply opt_ext; intro t; rw [tag_char, tag_char, hf]
+  have h3 : a1.transparent = a2.transparent := by apply bool_ext; rw [transparent_char, transparent_char, hf]
+  have h4 : a1.indexOnly = a2.indexOnly := by apply bool_ext; rw [indexOnly_char, indexOnly_char, hf]
+  have h5 : a1.index = a2.index := by apply opt_ext; intro ⟨b, i⟩; rw [index_char, index_char, hf]
+  simp only [topSem, h1, h2, h3, h4, h5]
+
 end Minicbor.Attrs
